@@ -205,11 +205,11 @@ struct Program {
             note("start" + std::to_string(id));
             pool->start(new Task(id));
         }
-        } catch (const std::system_error &) { threw = true; }
+        } catch (...) { threw = true; }   // how a failed thread creation is reported is not part of the statements
         if (inject) spy::cancelFailNextCreate();
         ++C.submitted;
         if (threw) {
-            if (!inject) { fail("C08", "start-threw", "start", "start() threw std::system_error although thread creation was not made to fail"); return; }
+            if (!inject) { fail("C08", "start-threw", "start", "start() threw although thread creation was not made to fail"); return; }
             note("(creation-failed)");
             ++C.startFailuresInjected;
             pendingKick = true;          // no worker may exist now: the next start() has to bring one up before anybody waits
